@@ -593,6 +593,10 @@ func (c *fnCtx) externCall(key string, v *ast.CallExpr, pre *[]fnBind) ([]string
 	for _, t := range rts {
 		switch t.k {
 		case "int", "byte", "bool", "string", "elem", "u64", "err", "opaque":
+		case "obj":
+			if c.sx.externAs[key] != t {
+				c.lostAt(v, "result of %s of type %s", key, t.k)
+			}
 		default:
 			c.lostAt(v, "result of %s of type %s", key, t.k)
 		}
